@@ -355,7 +355,9 @@ def gen_paths(rng):
     pd_in = "%s/%s/%s/%s" % (root, fl, name, ver)
     pd_out = "/O o/%s/%s" % (name, ver)
     dirs = [None, "none", pd_in, pd_in, pd_out, "%s/%s/%s" % (fl, name, ver), "$PROD_ROOT/%s/%s" % (name, ver), "",
-            root, pd_in + "/", root + "/ups_dbx/p/1", "$FLAVOR/p", "/O/$FLAVOR/p", "$UPS_DB/x", "$PROD_DIRx"]
+            root, pd_in + "/", root + "/ups_dbx/p/1", "$FLAVOR/p", "/O/$FLAVOR/p", "$UPS_DB/x", "$PROD_DIRx",
+            # beside the stack, in a directory whose path begins with the stack's path as a string
+            root + "2/%s/%s/%s" % (fl, name, ver), root + "-extras/%s/%s" % (name, ver)]
     d = rng.choice(dirs)
     dS = d.rstrip("/") if d not in (None, "none", "") else pd_in      # existing paths stay normalised
     upss = [None, "ups", "ups", "none", dS + "/ups", "$UPS_DB/%s/%s/%s/ups" % (fl, name, ver), "$PROD_DIR/ups",
@@ -364,7 +366,8 @@ def gen_paths(rng):
     tabs = [None, "none", "p.table", dS + "/ups/p.table", dS + "/p.table", root + "/tables/p.table",
             "/O o/t/p.table", dbS + "/%s/%s/%s/ups/p.table" % (fl, name, ver), "$UPS_DIR/p.table",
             "$PROD_DIR/ups/p.table", "$UPS_DB/x/p.table", "ups/p.table", "$PROD_ROOT/t.table", "$FLAVORx/t",
-            "a$FLAVOR/b$FLAVOR.table", "tables/p.table", "", dbS + "x/p.table", "$UPS_DBX/t", "$PROD_ROOT-1/t"]
+            "a$FLAVOR/b$FLAVOR.table", "tables/p.table", "", dbS + "x/p.table", "$UPS_DBX/t", "$PROD_ROOT-1/t",
+            root + "2/tables/p.table", root + "-extras/p.table"]
     t = rng.choice(tabs)
     cand = set()
     for a in [dS, dS + "/ups", root, dbS, pd_in, pd_out, root + "/tables", "/O o/t", "/O o/ups"]:
@@ -464,6 +467,11 @@ def run_paths(ctx, cases, scratch):
         ctx.count(1, key="paths/%s" % c["kind"],
                   nontrivial=("paths", c["kind"], tuple(str(x) for x in p), tuple(c["exists"]), str(c.get("adds")),
                               c.get("trim")))
+        if c["kind"] == "vfwrite" and c.get("trim"):
+            sib = [x for a in c["adds"] for x in a[1:] if x and x in c["exists"] and x.startswith(c["trim"])
+                   and not x.startswith(c["trim"] + "/") and x != c["trim"]]
+            if sib:
+                ctx.bump("paths/vfwrite/existing-value-beside-trimdir-with-its-prefix")
         if m != i:
             ctx.disagree(c, m, i, where="paths")
 
@@ -511,6 +519,18 @@ def gen_stack(rng, force=None):
         # the first [direct] flavors are declared through the resolved name, the others through the link
         c["direct"] = rng.choice([0, 0, 1]) if len(recs) > 1 else 0
         c["relink"] = rng.random() < 0.5
+    if rng.random() < 0.4:
+        # the outside directory is a sibling of the stack whose name BEGINS WITH the stack's name (or with the name
+        # of the link the stack is reached through): not inside the stack, though its path has the stack's path as
+        # a string prefix
+        stem = c["lname"] if c["via"] == "stacklink" and rng.random() < 0.4 else c["stack"]
+        c["out"] = stem + rng.choice(["2", "-extras", ".old", " b"])
+        if c["moved"] == c["out"]:
+            c["moved"] = "moved"
+        if not any(r["dir"] == "out" or r["table"] == "absout" for r in recs):
+            recs[0]["dir"] = "out"
+            if recs[0]["table"] == "absdb":
+                recs[0]["table"] = "ups"
     for r in recs:
         # the working directory of the declaring process
         r["cwd"] = rng.choice(["empty", "empty", "proddir", "proddir", "proddir", "upsdir", "stack", "tabdir", "out"])
@@ -783,6 +803,11 @@ def run_stack(ctx, cases, scratch):
                                                  c.get("via") or "direct"),
                   nontrivial=("stack", c["stack"], c["name"], c["version"], dist, c.get("via"), c.get("direct"),
                               tuple(x["rel"] for x in c["recs"]), str(c.get("legacy"))))
+        if any(x["dir"] == "out" or x["table"] == "absout" for x in c["recs"]):
+            stems = [c["stack"]] + ([c["lname"]] if c.get("via") == "stacklink" else [])
+            ctx.bump("stack-outside/%s/%s" % (
+                "beside-the-stack-with-its-name-as-prefix" if any(c["out"].startswith(z) for z in stems)
+                else "unrelated-name", "1fl" if len(c["recs"]) == 1 else "several-flavors"))
         for k, x in enumerate(c["recs"]):
             ctx.bump("stack-record/%s-%s" % (x["dir"], x["table"]))
             ctx.bump("stack-cwd/%s" % x.get("cwd", "empty"))
@@ -949,6 +974,24 @@ def oracle_stack(ctx, c, i, root0, outd):
 
 # ------------------------------------------------------------------ stream 4: tags and flavors in one database
 
+TARGETS = ["own", "own", "user", "other"]
+
+
+def gen_target(rng, c):
+    """where the chain file of the case is kept: in the product's own database (a global tag), in the user's tag
+    directory (a user tag) or in the database of a second stack (a global tag, writeableDB); Database.undeclare
+    knows nothing of a second stack, so such a history tags and untags only"""
+    c["target"] = rng.choice(TARGETS)
+    c["tag"] = rng.choice(["mine", "t1"] if c["target"] == "user" else ["current", "beta"])
+    c["other"] = rng.choice(["other", "stack-rw", "w stack"])
+    if c["target"] == "other":
+        for op in c["ops"]:
+            if op["op"] == "undeclare":
+                op["op"] = "unassign"
+                del op["version"]
+    return c
+
+
 def gen_tags(rng):
     """two versions x two or three flavors of one product; declare (with or without a tag), assignTag,
     unassignTag and undeclare of one flavor at a time, while other flavors already have blocks and chain entries"""
@@ -975,8 +1018,9 @@ def gen_tags(rng):
             fl, ver = rng.choice(sorted(declared))
             ops.append({"op": "undeclare", "flavor": fl, "version": ver})
             declared.discard((fl, ver))
-    return {"kind": "tags", "stack": rng.choice(STACKNAMES), "name": name, "flavors": fls, "versions": vers,
-            "ops": ops, "moved": rng.choice(["moved", "new place"]), "shape": "tags"}
+    return gen_target(rng, {"kind": "tags", "stack": rng.choice(STACKNAMES), "name": name, "flavors": fls,
+                            "versions": vers, "ops": ops, "moved": rng.choice(["moved", "new place"]),
+                            "shape": "tags"})
 
 
 def gen_assignmany(rng, fls, vers, declared):
@@ -1039,8 +1083,9 @@ def gen_tags_many(rng):
         else:
             fl, ver = rng.choice(sorted(declared))
             ops.append({"op": "assign", "flavor": fl, "version": ver})
-    return {"kind": "tags", "stack": rng.choice(STACKNAMES), "name": name, "flavors": fls, "versions": vers,
-            "ops": ops, "moved": rng.choice(["moved", "new place"]), "shape": "tags-many"}
+    return gen_target(rng, {"kind": "tags", "stack": rng.choice(STACKNAMES), "name": name, "flavors": fls,
+                            "versions": vers, "ops": ops, "moved": rng.choice(["moved", "new place"]),
+                            "shape": "tags-many"})
 
 
 def impl_tags(cases, scratch):
@@ -1061,25 +1106,62 @@ def impl_tags(cases, scratch):
         os.makedirs(cwd)
         os.chdir(cwd)
         name = c["name"]
-        DBM._databases.clear()
-        D = DBM.Database(db)
-        cfile = os.path.join(db, name, "current.chain")
+        target = c.get("target", "own")
+        tagname = c.get("tag", "current")
+        tag = "user:" + tagname if target == "user" else tagname
+        # the user's tag directory for this stack, the database of a second stack
+        usertags = os.path.join(base, "userdata", "_caches_", root[1:])
+        otherdb = os.path.join(base, c.get("other", "other"), "ups_db")
+        for d in (usertags, otherdb):
+            os.makedirs(d)
+        tdir = {"own": db, "user": usertags, "other": otherdb}[target]
 
-        def snap(Dx, dbp):
-            s = {"vf": {}, "chain": None, "tagged": {}}
+        def database(dbp, ut):
+            DBM._databases.clear()
+            return DBM.Database(dbp, ut) if target == "user" else DBM.Database(dbp)
+
+        D = database(db, usertags)
+
+        def snap(Dx, dbp, ut, od):
+            td = {"own": dbp, "user": ut, "other": od}[target]
+            s = {"vf": {}, "chain": None, "tagged": {}, "chains": {}, "ptags": {}}
             for ver in c["versions"]:
                 vf = os.path.join(dbp, name, ver + ".version")
                 s["vf"][ver] = split_file(vf) if os.path.exists(vf) else None
-            cf = os.path.join(dbp, name, "current.chain")
-            s["chain"] = split_file(cf) if os.path.exists(cf) else None
+            for key, dd in (("own", dbp), ("user", ut), ("other", od)):
+                cf = os.path.join(dd, name, tagname + ".chain")
+                s["chains"][key] = split_file(cf) if os.path.exists(cf) else None
+            s["chain"] = s["chains"][target]
             for fl in c["flavors"]:
                 try:
-                    s["tagged"][fl] = Dx.getTaggedVersion("current", name, fl)[1]
+                    if target == "other":
+                        # the tag is kept in the database of the other stack: a fresh reader of its chain file
+                        cf = os.path.join(td, name, tagname + ".chain")
+                        s["tagged"][fl] = (sys.modules["eups.db.ChainFile"].ChainFile(cf).getVersion(fl)
+                                           if os.path.exists(cf) else None)
+                    else:
+                        s["tagged"][fl] = Dx.getTaggedVersion(tag, name, fl)[1]
                 except Exception as ex:  # noqa
                     s["tagged"][fl] = None if type(ex).__name__ == "ProductNotFound" else "err:" + type(ex).__name__
+            if target != "other" and "target" in c:
+                # what a fresh reader of the database finds: the tags of every declared (flavor, version)
+                keep = dict(DBM._databases)
+                R = database(dbp, ut)
+                for fl in c["flavors"]:
+                    for ver in c["versions"]:
+                        try:
+                            q = R.findProduct(name, ver, fl)
+                            if q is not None:
+                                s["ptags"]["%s|%s" % (fl, ver)] = tag in list(q.tags)
+                        except Exception as ex:  # noqa
+                            s["ptags"]["%s|%s" % (fl, ver)] = "err:" + type(ex).__name__
+                DBM._databases.clear()
+                DBM._databases.update(keep)
             return s
 
-        res = {"base": base, "steps": []}
+        res = {"base": base, "steps": [], "dirs": {"own": os.path.join(db, name), "user": os.path.join(usertags, name),
+                                                   "other": os.path.join(otherdb, name)}}
+        wr = {"writeableDB": otherdb} if target == "other" else {}
         for op in c["ops"]:
             step = {"listing": listing(base)}
             try:
@@ -1096,27 +1178,36 @@ def impl_tags(cases, scratch):
                         pdir, tf, ups_dir = "none", "none", None
                     step["listing"] = listing(base)
                     step["args"] = [name, ver, op["flavor"], pdir, tf, db, ups_dir]
-                    D.declare(Product(name, ver, op["flavor"], pdir, tf, ["current"] if op["tag"] else None, db,
-                                      ups_dir=ups_dir))
+                    D.declare(Product(name, ver, op["flavor"], pdir, tf,
+                                      [tag] if op["tag"] and target != "other" else None, db, ups_dir=ups_dir))
+                    if op["tag"] and target == "other":
+                        D.assignTag(tag, name, ver, op["flavor"], writeableDB=otherdb)
                 elif op["op"] == "assign":
-                    D.assignTag("current", name, op["version"], op["flavor"])
+                    D.assignTag(tag, name, op["version"], op["flavor"], **wr)
                 elif op["op"] == "assignmany":
                     if op["flavors"] is None:
-                        D.assignTag("current", name, op["version"])
+                        D.assignTag(tag, name, op["version"], **wr)
                     else:
-                        D.assignTag("current", name, op["version"], list(op["flavors"]))
+                        D.assignTag(tag, name, op["version"], list(op["flavors"]), **wr)
                 elif op["op"] == "unassign":
-                    D.unassignTag("current", name, op["flavor"])
+                    if target == "other":
+                        DBM.Database(otherdb).unassignTag(tag, name, op["flavor"])
+                    else:
+                        D.unassignTag(tag, name, op["flavor"])
                 else:
                     D.undeclare(Product(name, op["version"], op["flavor"]))
             except Exception as ex:  # noqa
                 step["err"] = errclass(type(ex).__name__)
-            step["after"] = snap(D, db)
+            step["after"] = snap(D, db, usertags, otherdb)
             res["steps"].append(step)
         moved = os.path.join(base, c["moved"])
         os.rename(root, moved)
-        DBM._databases.clear()
-        res["moved"] = snap(DBM.Database(os.path.join(moved, "ups_db")), os.path.join(moved, "ups_db"))
+        # the user's tags of a stack are filed under the stack's path: they move with it
+        mtags = os.path.join(base, "userdata", "_caches_", moved[1:])
+        os.makedirs(os.path.dirname(mtags), exist_ok=True)
+        os.rename(usertags, mtags)
+        mdb = os.path.join(moved, "ups_db")
+        res["moved"] = snap(database(mdb, mtags), mdb, mtags, otherdb)
         out.append(res)
         os.chdir(scratch)
         shutil.rmtree(base, ignore_errors=True)
@@ -1134,12 +1225,27 @@ def run_tags(ctx, cases, scratch):
     if r[0] != "ok":
         raise RuntimeError("tags implementation driver failed: %r" % (r,))
     for c, i in zip(cases, r[1]):
+        target, tagname = c.get("target", "own"), c.get("tag", "current")
         ctx.count(1, key="%s/%dfl/%dops" % (c.get("shape", "tags"), len(c["flavors"]), min(len(c["ops"]), 9)),
-                  nontrivial=("tags", c["name"], tuple(c["flavors"]), json.dumps(c["ops"])))
-        small = {k: c[k] for k in ("kind", "stack", "name", "flavors", "versions", "ops", "moved", "shape")}
-        # ---- the model, on its own texts
+                  nontrivial=("tags", c["name"], tuple(c["flavors"]), json.dumps(c["ops"]), target, tagname))
+        ctx.bump("tags-kept-in/" + target)
+        small = {k: c[k] for k in ("kind", "stack", "name", "flavors", "versions", "ops", "moved", "shape", "target",
+                                   "tag", "other") if k in c}
+        # ---- the model, on its own texts: the version files, and the chain files of the tag by directory
         mvf = {v: None for v in c["versions"]}
-        mcf = None
+        mchains = {}
+        tdir = i["dirs"][target]
+        seen_tagged = set()      # flavors that have been given the tag by an earlier call of this history
+
+        def dbassignin(ver, req):
+            # Database.assignTag through the model of the three places a chain file can be kept in
+            cs = sorted(mchains.items())
+            return "\t".join(["dbassignin", enc(c["name"]), enc(tagname), enc(ver),
+                              "~" if req is None else ",".join(enc(x) for x in req), enc_lines(mvf[ver]),
+                              enc(i["dirs"]["own"]), "1" if target == "user" else "0",
+                              enc(i["dirs"]["user"]) if target == "user" else "~",
+                              enc(i["dirs"]["other"]) if target == "other" else "~", str(len(cs))]
+                             + [x for d, l in cs for x in (enc(d), enc_lines(l))])
         # ---- the property's oracle: an abstract database
         tagged, prev = {}, {"vf": {v: None for v in c["versions"]}, "chain": None}
         odecl = set()           # the oracle's own account of what is declared: (flavor, version)
@@ -1167,58 +1273,76 @@ def run_tags(ctx, cases, scratch):
             after = st["after"]
             # model
             if ok:
+                mcf = mchains.get(tdir)
+                via_dirs = "target" in c        # histories that say where the chain file is kept
                 qs = []
+
+                def cfassign(ver, fl=fl):
+                    if via_dirs:
+                        return lambda: dbassignin(ver, [fl])
+                    return lambda: "\t".join(["cfassign", enc(c["name"]), enc(tagname), enc(ver), enc(fl),
+                                              enc_lines(mcf)])
                 if op["op"] == "declare":
                     ver = op["version"]
-                    qs.append(("vf", ver, "\t".join(["declare", "1", enc_list(";", st["listing"]),
-                                                     enc_product(st["args"]), enc_lines(mvf[ver])])))
+                    qs.append(("vf", ver, lambda ver=ver: "\t".join(["declare", "1", enc_list(";", st["listing"]),
+                                                                     enc_product(st["args"]), enc_lines(mvf[ver])])))
                     if op["tag"]:
-                        qs.append(("cf", None, "\t".join(["cfassign", enc(c["name"]), enc("current"), enc(ver), enc(fl),
-                                                          enc_lines(mcf)])))
+                        qs.append(("dirs" if via_dirs else "cf", None, cfassign(ver)))
                 elif op["op"] == "assign":
-                    qs.append(("cf", None, "\t".join(["cfassign", enc(c["name"]), enc("current"), enc(op["version"]),
-                                                      enc(fl), enc_lines(mcf)])))
+                    qs.append(("dirs" if via_dirs else "cf", None, cfassign(op["version"])))
                 elif op["op"] == "assignmany":
                     ver = op["version"]
-                    qs.append(("cf", None, "\t".join(["dbassign", enc(c["name"]), enc("current"), enc(ver),
-                                                      "~" if op["flavors"] is None else
-                                                      ",".join(enc(x) for x in op["flavors"]),
-                                                      enc_lines(mvf[ver]), enc_lines(mcf)])))
+                    if via_dirs:
+                        qs.append(("dirs", None, lambda ver=ver: dbassignin(ver, op["flavors"])))
+                    else:
+                        qs.append(("cf", None, lambda ver=ver: "\t".join(
+                            ["dbassign", enc(c["name"]), enc(tagname), enc(ver),
+                             "~" if op["flavors"] is None else ",".join(enc(x) for x in op["flavors"]),
+                             enc_lines(mvf[ver]), enc_lines(mcf)])))
                 elif op["op"] == "unassign":
                     if mcf is not None:
-                        qs.append(("cf", None, "\t".join(["cfremove", enc_lines(mcf), enc(fl)])))
+                        qs.append(("cf", None, lambda: "\t".join(["cfremove", enc_lines(mcf), enc(fl)])))
                 else:
                     ver = op["version"]
                     if mvf[ver] is not None:
                         # undeclare first drops the tags that sit on this flavor and version
                         mt = None
                         if mcf is not None:
-                            g = ctx.model(["\t".join(["cfversions", enc(c["name"]), enc("current"), enc_lines(mcf),
+                            g = ctx.model(["\t".join(["cfversions", enc(c["name"]), enc(tagname), enc_lines(mcf),
                                                       enc(fl)])])[0].split("\t")
                             mt = dec_val(g[1]) if len(g) > 1 else None
                         if mt == ver and fl in blocks_of(mvf[ver]):
-                            qs.append(("cf", None, "\t".join(["cfremove", enc_lines(mcf), enc(fl)])))
-                        qs.append(("vf", ver, "\t".join(["vfremove", enc_lines(mvf[ver]), enc(fl)])))
-                for (what, ver, q), line in zip(qs, ctx.model([q for _, _, q in qs])):
+                            qs.append(("cf", None, lambda: "\t".join(["cfremove", enc_lines(mcf), enc(fl)])))
+                        qs.append(("vf", ver, lambda ver=ver: "\t".join(["vfremove", enc_lines(mvf[ver]), enc(fl)])))
+                for what, ver, mk in qs:
+                    line = ctx.model([mk()])[0]
                     f = line.split("\t")
                     ctx.traces_validated += 1
                     if f[0] == "err" and "err" in st and f[1:2] == [st["err"]]:
                         continue            # both refuse; nothing is written
-                    new = dec_lines(f[1] if len(f) > 1 else "") if f[0] == "ok" else None
-                    if new == []:
-                        new = None          # the file is removed
-                    if what == "vf":
-                        mvf[ver] = new
+                    if what == "dirs" and f[0] == "ok":
+                        mchains = {common.dec(f[k]): dec_lines(f[k + 1]) for k in range(1, len(f) - 1, 2)}
                     else:
-                        mcf = new
+                        new = dec_lines(f[1] if len(f) > 1 else "") if f[0] == "ok" else None
+                        if new == []:
+                            new = None          # the file is removed
+                        if what == "vf":
+                            mvf[ver] = new
+                        elif new is None:
+                            mchains.pop(tdir, None)
+                        else:
+                            mchains[tdir] = new
                     if f[0] != "ok" or "err" in st:
                         ctx.disagree({"case": small, "step": k}, f, st.get("err", "no error"), where="tags-model")
                         ok = False
+                        break
                 if ok:
                     mine = {"vf": {v: (drop_meta(x) if x is not None else None) for v, x in mvf.items()},
-                            "chain": drop_meta(mcf) if mcf is not None else None}
+                            "chains": {key: (drop_meta(mchains[d]) if d in mchains else None)
+                                       for key, d in sorted(i["dirs"].items())}}
                     theirs = {"vf": {v: (drop_meta(x) if x is not None else None) for v, x in after["vf"].items()},
-                              "chain": drop_meta(after["chain"]) if after["chain"] is not None else None}
+                              "chains": {key: (drop_meta(x) if x is not None else None)
+                                         for key, x in sorted(after["chains"].items())}}
                     if mine != theirs:
                         ctx.disagree({"case": small, "step": k}, mine, theirs, where="tags-texts")
                         ok = False
@@ -1238,13 +1362,26 @@ def run_tags(ctx, cases, scratch):
                 tagged.pop(fl, None)
             elif op["op"] == "undeclare" and tagged.get(fl) == op["version"]:
                 tagged.pop(fl)
+            if op["op"] in ("assign", "assignmany") or (op["op"] == "declare" and op["tag"]):
+                others = [g for g in tagged if g not in aff]
+                ctx.bump("tags-assign/kept-in-%s/%s" % (target, "other-flavors-tagged-already" if others else
+                                                        "no-other-flavor-tagged"))
             for g in c["flavors"]:
                 if after["tagged"].get(g) != tagged.get(g):
                     ctx.fail("tagged-version" if g in aff else "chain-rewrite-changes-other-flavor", small,
                              expected=tagged.get(g), observed=after["tagged"].get(g),
-                             what="after step %d (%s %s%s) flavor %s has current = %r, the operations so far give %r"
-                                  % (k, op["op"], fl, " " + (op.get("version") or ""), g, after["tagged"].get(g),
+                             what="after step %d (%s %s%s) flavor %s has %s = %r, the operations so far give %r"
+                                  % (k, op["op"], fl, " " + (op.get("version") or ""), g, tagname, after["tagged"].get(g),
                                      tagged.get(g)))
+            # the same through findProduct(...).tags of a fresh reader of the database
+            for key, has in sorted(after.get("ptags", {}).items()):
+                g, ver = key.split("|")
+                if (g, ver) in odecl and has != (tagged.get(g) == ver):
+                    ctx.fail("tagged-version" if g in aff else "chain-rewrite-changes-other-flavor", small,
+                             expected=tagged.get(g) == ver, observed=has,
+                             what="after step %d (%s %s) findProduct(%s, %s).tags %s the tag, the operations so far "
+                                  "give %r" % (k, op["op"], fl, ver, g, "holds" if has is True else "does not hold"
+                                               if has is False else has, tagged.get(g)))
             # oracle: blocks of the other flavors are unchanged
             for ver in c["versions"]:
                 was, now_ = parsed_blocks(prev["vf"][ver]), parsed_blocks(after["vf"][ver])
@@ -1324,6 +1461,12 @@ def setup(ctx):
                 "directory / the stack / the directory of the table file / outside; tags: two versions x 2-3 flavors of one product, 4-8 "
                 "operations (Database.declare with or without a tag, assignTag, unassignTag, undeclare) on one flavor "
                 "at a time while the others already have version blocks and chain entries, and Database.assignTag for a LIST of flavors (any order, a repetition, an undeclared flavor), the empty list or flavors=None while some of the flavors carry the tag already (for that version or another) and others do not (directed family tags-many), stack renamed; "
+                "in both tag families the chain file is kept in the product's own database (global tag), in the user's "
+                "tag directory (user: tag, Database(db, userTagRoot)) or in the database of a second stack (writeableDB), "
+                "flavors tagged one after the other; the chain files of all three places, getTaggedVersion and "
+                "findProduct().tags of a fresh reader are compared after every step; in 40% of the stack cases the "
+                "outside directory is a sibling of the stack whose name begins with the stack's (or its link's) name "
+                "(stack2, stack-extras), and the fake-file-system paths stream holds such directories and table files; "
                 "chainapi: one chain file over 2-6 sessions of ChainFile(file) ; setVersion / removeVersion with a list of "
                 "flavors, a string or None ; write ; read back by a fresh ChainFile (directed: the list holds flavors that "
                 "already have the version first or later in the list); macro: hand-written and VersionFile-API records of "
